@@ -15,7 +15,7 @@ func init() { generators["log"] = genLog }
 // and from log/output.go / log/input.go nothing (their logic is modelled by hand and tied by traces).
 func genLog() {
 	fset, f := parseFile("log/logging.go")
-	equalDef := genLogEqual(fset, f)
+	equalDef := genLogEqual(fset, f) + genLogNames(fset, f)
 	type sev struct {
 		name string
 		val  string
@@ -269,5 +269,88 @@ func genLogEqual(fset *token.FileSet, f *ast.File) string {
 		fmt.Fprintf(&sb, "  if %s then false else\n", c)
 	}
 	sb.WriteString("  true\n")
+	return sb.String()
+}
+
+// genLogNames regenerates the two name tables of log/logging.go:
+//
+//	func ParseLevel(level string) Severity { switch strings.ToLower(level) { case "trace": return 1 … }; return 0 }
+//	func (s Severity) Name() string       { switch s { case TraceLevel: return "trace" … default: return "none" } }
+//
+// Start() turns the -log / -plog flags into the levels in force through ParseLevel.
+func genLogNames(fset *token.FileSet, f *ast.File) string {
+	var sb strings.Builder
+	// ParseLevel
+	pl := findFunc(f, "ParseLevel", "")
+	if pl == nil || len(pl.Body.List) != 2 {
+		die("log: ParseLevel: expected `switch …; return 0`")
+	}
+	sw, ok := pl.Body.List[0].(*ast.SwitchStmt)
+	if !ok || sw.Init != nil || exprString(fset, sw.Tag) != "strings.ToLower(level)" {
+		die("log: ParseLevel: expected a switch on strings.ToLower(level)")
+	}
+	if r, ok := pl.Body.List[1].(*ast.ReturnStmt); !ok || len(r.Results) != 1 || constVal(fset, r.Results[0]).ExactString() != "0" {
+		die("log: ParseLevel: does not end with `return 0`")
+	}
+	sb.WriteString("\n/-- `ParseLevel`: the cases of its switch on the lower-cased name; any other name yields 0. -/\ndef levelNames : List (String × Nat) :=\n  [")
+	for i, st := range sw.Body.List {
+		cc := st.(*ast.CaseClause)
+		if len(cc.List) != 1 || len(cc.Body) != 1 {
+			die("log: ParseLevel: unexpected case shape")
+		}
+		lit, ok := cc.List[0].(*ast.BasicLit)
+		r, ok2 := cc.Body[0].(*ast.ReturnStmt)
+		if !ok || lit.Kind != token.STRING || !ok2 || len(r.Results) != 1 {
+			die("log: ParseLevel: unexpected case %s", exprString(fset, cc.List[0]))
+		}
+		if i > 0 {
+			sb.WriteString(", ")
+		}
+		fmt.Fprintf(&sb, "(%s, %s)", lit.Value, constVal(fset, r.Results[0]).ExactString())
+	}
+	sb.WriteString("]\n")
+	// Severity.Name
+	nm := findFunc(f, "Name", "Severity")
+	if nm == nil || len(nm.Body.List) != 1 {
+		die("log: Severity.Name: expected a single switch")
+	}
+	sw, ok = nm.Body.List[0].(*ast.SwitchStmt)
+	if !ok || sw.Init != nil || exprString(fset, sw.Tag) != nm.Recv.List[0].Names[0].Name {
+		die("log: Severity.Name: expected a switch on the receiver")
+	}
+	sb.WriteString("\n/-- `Severity.Name`: constant name → text, and the text of the default clause. -/\ndef severityNames : List (String × String) :=\n  [")
+	def := ""
+	n := 0
+	for _, st := range sw.Body.List {
+		cc := st.(*ast.CaseClause)
+		if len(cc.Body) != 1 {
+			die("log: Severity.Name: unexpected case shape")
+		}
+		r, ok := cc.Body[0].(*ast.ReturnStmt)
+		if !ok || len(r.Results) != 1 {
+			die("log: Severity.Name: case does not return")
+		}
+		lit, ok := r.Results[0].(*ast.BasicLit)
+		if !ok || lit.Kind != token.STRING {
+			die("log: Severity.Name: case does not return a string literal")
+		}
+		if cc.List == nil {
+			def = lit.Value
+			continue
+		}
+		id, ok := cc.List[0].(*ast.Ident)
+		if len(cc.List) != 1 || !ok {
+			die("log: Severity.Name: unexpected case %s", exprString(fset, cc.List[0]))
+		}
+		if n > 0 {
+			sb.WriteString(", ")
+		}
+		n++
+		fmt.Fprintf(&sb, "(%q, %s)", id.Name, lit.Value)
+	}
+	if def == "" {
+		die("log: Severity.Name: no default clause")
+	}
+	fmt.Fprintf(&sb, "]\ndef severityNameDefault : String := %s\n", def)
 	return sb.String()
 }
